@@ -27,13 +27,15 @@ EXTENDS Integers, Sequences, FiniteSets, TLC, Json
 
 CONSTANTS HRR,                \* server answers the first ClientHello with HelloRetryRequest
           MaxDrop, MaxDup, MaxTimeouts, BackoffCap,
+          ResendHRR,          \* a repeated ClientHello makes the server send its HelloRetryRequest again (TRUE since the
+                              \* "fix:" commit 13cb030; FALSE = pinned tree: a lost HelloRetryRequest was never recovered)
+          Cap,                \* identical copies of one datagram kind in flight at once (further emissions are merged)
           Gen
 
 E == {"c", "s"}
 Peer(e) == IF e = "c" THEN "s" ELSE "c"
 Kinds == {"F1", "F2", "F3", "F4", "F5", "As", "Ac4", "AcT", "T"}
 Sender(k) == IF k \in {"F1", "F3", "F5", "Ac4", "AcT"} THEN "c" ELSE "s"
-Cap == 2
 
 VARIABLES st,      \* "Waiting" | "Finished"
           fl,      \* current flight: client F1 F3 F5, server F0 F2 F4
@@ -80,7 +82,7 @@ React(e, k) ==
            ELSE same
       [] fl["s"] = "F2" ->
            IF k = "F3" THEN [same EXCEPT !.fl = "F4", !.retx = TRUE, !.out = <<"F4">>]
-           ELSE IF k = "F1" THEN [same EXCEPT !.out = <<"F2">>]      \* peer repeats its ClientHello: HRR again
+           ELSE IF k = "F1" /\ ResendHRR THEN [same EXCEPT !.out = <<"F2">>]      \* peer repeats its ClientHello: HRR again
            ELSE same
       [] fl["s"] = "F4" ->
            IF k = "F5" THEN [same EXCEPT !.st = "Finished", !.est = TRUE, !.retx = FALSE, !.tick = "pending", !.out = <<"As", "T">>]
@@ -180,8 +182,13 @@ Next == \/ \E k \in Kinds : \/ \E c \in {"n", "d"} : Deliver(k, c) /\ Log("Deliv
                             \/ Dup(k) /\ Log("Dup", k)
         \/ \E e \in E : Timeout(e) /\ Log("Timeout", e)
 
+\* fairness: timers keep firing, and each endpoint keeps receiving datagrams that it can process.  The client's
+\* acknowledgements are excluded: a server still in flight 4 merely queues them, so delivering them for ever would
+\* satisfy a per-endpoint fairness condition while the flight that matters is starved.  (One strong-fairness
+\* condition per datagram kind would be the natural statement; TLC did not finish it in 20 minutes.)
 Fair == /\ \A e \in E : WF_vars(Timeout(e) /\ Log("Timeout", e))
-        /\ \A e \in E : SF_vars(\E k \in Kinds, c \in {"n", "d"} : Sender(k) = Peer(e) /\ Deliver(k, c) /\ Log("Deliver", k \o "/" \o c))
+        /\ \A e \in E : SF_vars(\E k \in Kinds \ {"Ac4", "AcT"}, c \in {"n", "d"} :
+                                     Sender(k) = Peer(e) /\ Deliver(k, c) /\ Log("Deliver", k \o "/" \o c))
 Spec == Init /\ [][Next]_vars /\ Fair
 
 -----------------------------------------------------------------------------
